@@ -94,12 +94,18 @@ def _on_alarm(signum, frame):
     raise _Timeout()
 
 
+_TIMEOUTS_SEEN = [0]
+
+
 def guarded(fn, *a):
-    """-> ('ok', value) | ('exc', exception, traceback) | ('timeout',)"""
-    signal.setitimer(signal.ITIMER_REAL, LIMIT_S)
+    """-> ('ok', value) | ('exc', exception, traceback) | ('timeout',)
+    The budget is LIMIT_S; once this worker has seen 3 genuine timeouts the remaining (tiny)
+    inputs get 1 s each, so that a non-terminating change is reported in minutes, not hours."""
+    signal.setitimer(signal.ITIMER_REAL, LIMIT_S if _TIMEOUTS_SEEN[0] < 3 else 1.0)
     try:
         return ('ok', fn(*a))
     except _Timeout:
+        _TIMEOUTS_SEEN[0] += 1
         return ('timeout',)
     except BaseException as e:  # noqa
         if isinstance(e, (KeyboardInterrupt, SystemExit)) and not isinstance(e, _Timeout):
